@@ -9,6 +9,7 @@ from __future__ import annotations
 from typing import TYPE_CHECKING
 
 from stabilize.dag.graph import StageGraphBuilder
+from stabilize.models.stage import SyntheticStageOwner
 from stabilize.stages.builder import get_default_factory
 
 if TYPE_CHECKING:
@@ -73,9 +74,15 @@ class StartStagePlannerMixin:
             stage.tasks[0].stage_start = True
             stage.tasks[-1].stage_end = True
 
-        # Build before stages
+        # Build before stages - unless this stage already owns some: a jump that
+        # re-armed the stage reset its before-stages of the previous iteration to
+        # NOT_STARTED and they run again. Building a fresh set next to them (as
+        # CompleteStage avoids for after-stages) ran every before-stage once more
+        # per loop iteration: twice in the second, three times in the third, ...
         graph = StageGraphBuilder.before_stages(stage)
-        builder.before_stages(stage, graph)
+        existing = self.repository.get_synthetic_stages(stage.execution.id, stage.id) or []
+        if not any(s.synthetic_stage_owner == SyntheticStageOwner.STAGE_BEFORE for s in existing):
+            builder.before_stages(stage, graph)
 
         # Save any new synthetic stages
         for s in graph.build():
